@@ -5,7 +5,7 @@ ENGINES = [
      'kind_free_text': 'whole-crate call graph (fn items as values and closures are edges, CHA for unresolved trait calls) and transitive effect sets'},
     {'name': 'E3 bit-precise evaluator', 'path': 'analysis/bits.py rules/layout.py', 'serves_properties': ['C04', 'C12'],
      'kind_free_text': 'integers as vectors of bits, each bit a truth table over <= 8 named input bits; byte arrays at constant offsets; loop-free code only'},
-    {'name': 'E4 relational abstract interpreter', 'path': 'analysis/interp.py analysis/lin.py analysis/e4.py', 'serves_properties': ['C01', 'C02', 'C05', 'C06', 'C07', 'C14', 'C18'],
+    {'name': 'E4 relational abstract interpreter', 'path': 'analysis/interp.py analysis/lin.py analysis/e4.py', 'serves_properties': ['C01', 'C02', 'C05', 'C06', 'C07', 'C13', 'C14', 'C18'],
      'kind_free_text': 'abstract interpretation of MIR over linear constraints between immutable symbols; entailment by Fourier-Motzkin with gcd tightening; summaries with bad-region lifting; weak join, widening with thresholds, progress-ratio candidates; post-fixpoint ranking search'},
     {'name': 'E5 tables (clang AST vs MIR)', 'path': 'rules/C15.py tables/', 'serves_properties': ['C15'],
      'kind_free_text': 'clang -Xclang -ast-dump=json of src/bin/c_hook/c_hook.h compared with the ADT/fn-pointer types of the type-checked Rust crate'},
@@ -189,5 +189,16 @@ CHECKS['C07'] = {
              '(c) OPT is carried once, in place: the additional section is walked with OPT included (through the helper\'s parameter) and no copy from the input packet is open-ended; (d) replace_raw refuses an over-long result only for names that matched (no Ok(None) behind the length test). '
              'Validation-before-commit is decided under C10.a. NOT decided: which names match (run-time comparison), identity-rename equality.'),
     'note': 'Helpers above the size threshold are havocked for the accounting. Trusted: analysis/interp.py contracts.',
+}
+CHECKS['C13'] = {
+    'engine': 'E4 per-body + E3 layout + E5 tables', 'level': 'other',
+    'technique': 'per-body relational abstract interpretation of every function and closure reachable from RR::from_string with contract-checked residual obligations; layout tuples of the builders; dispatch and keyword table extraction',
+    'design_ref': 'DESIGN.md section 4, C13',
+    'text': ('Decides: (a) for every string: each of the ~15 local bodies below from_string that contains a potential panic is analysed with arbitrary arguments; every overflow assert, array range, byteorder write and unwrap is discharged outright or under one of four stated contracts, each tied to a MIR check '
+             '(digit source, sum of lengths of input substrings, unit-increment usize counter, ASCII-only predicate before from_utf8().unwrap()); any other unwrap on input-derived data is reported; '
+             '(b) RR::new writes TTL/CLASS/TYPE/RDLENGTH at the RFC offsets with rdlength = len(rdata); SOA counters at 0/4/8/12/16 from the right arguments; MX/DS 16-bit field first; every TXT length byte is the length of a chunks(255) item, hence in [1,255]; '
+             '(c) mnemonic -> Type and Type -> (parser, builder) are the expected tables; (d) decimal folds use checked arithmetic only. '
+             'NOT decided: the accepted text grammar (whitespace, escapes, field counts) and wire-form equality beyond these layouts.'),
+    'note': 'Contracts listed under assumptions in the evidence. chomp combinators are opaque, effect-free models. Trusted: tables/rfc_layout.json.',
 }
 NOT_APPLICABLE = {('C%02d' % i): PENDING for i in range(1, 19) if ('C%02d' % i) not in CHECKS}
